@@ -4,7 +4,7 @@
 #include <stddef.h>
 #include <stdbool.h>
 #include <assert.h>
-#include "/repo/libmy/ubuf.h"
+#include "libmy/ubuf.h"
 #include "spec/ghost.h"
 
 static ubuf *vg_any(uint8_t *shadow, size_t *n)
